@@ -12,41 +12,40 @@ open Manticore Manticore.SmbIR Manticore.Gen.SmbCommands
 
 theorem command_count : commands.length = 115 := by decide +kernel
 
-/-- **Every marshal program conforms** except the one listed: all integer emissions are
+/-- **Every marshal program conforms**: all integer emissions are
     little-endian and exactly as wide as the declared type (UCHAR 1, USHORT 2, ULONG 4,
     LARGE_INTEGER 8); raw appends are of `UCHAR` arrays and nested `Marshal` calls of the declared
     nested structure; within the parameter block and within the data block the emissions are exactly
     the declared fields of that block, each once, in declaration order (parameters declared before
-    data); no field is assigned after it went out; no declared field is left out.
-    `WriteRequest` puts its data buffer ahead of the parameter block.  (Six more once never emitted one of their
-    declared fields — `commands_dropping_fields`, now empty: repaired in the repository, fixes/C04-*.diff.) -/
+    data); no field is assigned after it went out; no declared field is left out; nothing goes ahead of the
+    parameter block.  (`WriteRequest` once put its data buffer there — repaired, fixes/C04-writerequest-data-block.diff;
+    six more once never emitted one of their declared fields — `commands_dropping_fields`, now empty, fixes/C04-*.diff.) -/
 theorem non_conforming_commands :
-    (commands.filter (fun c => !Conforms c)).map (·.name) =
-      ["WriteRequest"] := by decide +kernel
+    (commands.filter (fun c => !Conforms c)).map (·.name) = [] := by decide +kernel
 
 /-- the part of `Conforms` that `conforms_sound` rests on (everything but "no declared field is left
-    out") fails for `WriteRequest` only -/
+    out") fails for no command -/
 theorem core_non_conforming_commands :
-    (commands.filter (fun c => !ConformsCore c)).map (·.name) = ["WriteRequest"] := by decide +kernel
+    (commands.filter (fun c => !ConformsCore c)).map (·.name) = [] := by decide +kernel
 
 /-- **Declared fields no statement of `Marshal` emits** (not even under a condition), per command: none any more.
     (Before the repairs: LockAndReadResponse.Reserved, NegotiateRequest.WordCount, NegotiateResponse.ServerName,
     OpenAndxResponse.NMPipeStatus and .Reserved, QueryInformationResponse.Reserved, ReadResponse.Reserved.
-    `WriteRequest.Data` is emitted, but ahead of the parameter block, so it was never listed.) -/
+    `WriteRequest.Data` was emitted, but ahead of the parameter block, so it was never listed.) -/
 theorem commands_dropping_fields :
     (commands.filter (fun c => !allEmitted c)).map
         (fun c => (c.name, (c.fields.map (·.1)).filter (fun f => !(emittedDeep c.marshal).contains f))) =
       [] := by decide +kernel
 
 /-- the commands outside the straight-line fragment (a loop over a list field, a field emitted under
-    a condition, bytes ahead of the parameter block, literal terminator bytes): `Spec.Cifs.encode` is silent on them, so
+    a condition, literal terminator bytes): `Spec.Cifs.encode` is silent on them, so
     `conforms_sound` says nothing there and they are covered by the differential run only -/
 theorem commands_outside_straight_line :
     (commands.filter (fun c => (layoutM c.marshal).isNone)).map (·.name) =
       ["FindResponse", "FindUniqueResponse", "LockAndReadResponse", "LockingAndxRequest",
        "NegotiateResponse", "OpenAndxRequest", "OpenAndxResponse", "QueryInformationResponse",
        "ReadRawRequest", "TransactionRequest", "WriteAndCloseRequest", "WriteAndxRequest",
-       "WriteRawRequest", "WriteRequest"] := by decide +kernel
+       "WriteRawRequest"] := by decide +kernel
 
 /-- **Loops over list fields, proved**: of the commands outside the straight-line fragment exactly these eight
     pass `ConformsLists` — `Conforms`, and nothing but straight-line statements and `range` loops over a
@@ -75,19 +74,17 @@ theorem optional_conforming_commands :
       [("ReadRawRequest", ["OffsetHigh"]), ("WriteAndCloseRequest", ["Reserved"]),
        ("WriteAndxRequest", ["OffsetHigh"]), ("WriteRawRequest", ["OffsetHigh"])] := by decide +kernel
 
-/-- **What is still outside every proved fragment**: of the fourteen commands outside the straight-line
-    fragment, two pass neither `ConformsLists` nor `ConformsOptional` — `NegotiateResponse` writes the two-byte
+/-- **What is still outside every proved fragment**: of the thirteen commands outside the straight-line
+    fragment, one passes neither `ConformsLists` nor `ConformsOptional` — `NegotiateResponse` writes the two-byte
     terminators of `DomainName` and `ServerName` as literal bytes, of which the encoders over the declared field list
-    have no notion (its `Conforms` clauses hold), `WriteRequest` puts its buffer ahead of the parameter
-    block (already in `non_conforming_commands`).  On these the three MS-CIFS encoders are silent and only
+    have no notion (its `Conforms` clauses hold).  On it the three MS-CIFS encoders are silent and only
     the differential run speaks.  (`ReadRawRequest` left this list with fixes/C04-readraw-request-offsethigh.diff:
-    `OffsetHigh` is emitted iff non-zero now.) -/
+    `OffsetHigh` is emitted iff non-zero now; `WriteRequest` with fixes/C04-writerequest-data-block.diff: its program is
+    straight-line now and passes `Conforms`, so `conforms_sound` speaks about it.) -/
 theorem commands_outside_proved_fragments :
     (commands.filter (fun c => (layoutM c.marshal).isNone && !ConformsLists c && !ConformsOptional c)).map
         (fun c => (c.name, extFailures c)) =
-      [("NegotiateResponse", ["statement shape"]),
-       ("WriteRequest", ["bytes ahead of the parameter block", "statement shape",
-          "int-width/endianness or bytes ahead of the parameter block"])] := by decide +kernel
+      [("NegotiateResponse", ["statement shape"])] := by decide +kernel
 
 /-- the nested structures `Marshal` loops over (`for _, x := range c.F { x.Marshal() }`) are these two -/
 theorem list_element_types :
